@@ -368,6 +368,19 @@ impl<'a, 's> Iterator for CountIter<'a, 's> {
         self.st.calls.set(self.st.calls.get() + 1);
         self.st.take_byte()
     }
+    /// Always a *valid* hint, but of a kind that depends on the stream (a pure function of
+    /// the scenario): none, exact, loose upper bound, lower bound only, upper bound at the
+    /// limit of `usize`.  Code that starts to rely on hints must cope with all of them.
+    fn size_hint(&self) -> (usize, Option<usize>) {
+        let rem = self.st.data.len() - self.st.pos.get().min(self.st.data.len());
+        match (self.st.data.len() + self.st.data.first().copied().unwrap_or(0) as usize) % 5 {
+            0 => (0, None),
+            1 => (rem, Some(rem)),
+            2 => (0, Some(rem + 7)),
+            3 => (rem / 2, None),
+            _ => (0, Some(usize::MAX)),
+        }
+    }
 }
 
 // ---------------------------------------------------------------------------
@@ -791,8 +804,12 @@ pub fn drive_push_dirty_kind(buf: BufKind, stream: &[u8], dirty: &[u8]) -> Vec<O
 }
 
 pub fn drive_decode(stream: &[u8]) -> Vec<Obs> {
-    decode(stream)
-        .into_iter()
+    // `decode` accepts anything that yields `Borrow<u8>`: half of the streams are handed over
+    // as a slice (items `&u8`, exact size hint), the other half through the counting iterator
+    // (items `u8`, one of five kinds of size hint)
+    let st = SrcState::new(stream, &[]);
+    let res = if stream.len() % 2 == 0 { decode(stream) } else { decode(CountIter { st: &st }) };
+    res.into_iter()
         .map(|r| Obs {
             pos: usize::MAX,
             item: match r {
